@@ -474,6 +474,20 @@ pub fn walk_cmd(args: &[&str]) -> String {
         }
         else if mode == "g" {
             let glob = Glob::new(&expr).map_err(|_| "globerr".to_string())?;
+            // HISTORY: the value has answered its queries, matched a path and been walked once before the walk that is
+            // recorded (mode `o` walks a fresh value): a remembered answer or a consumed piece of state shows as a
+            // disagreement with the model
+            {
+                use wax::Program;
+                let _ = std::panic::catch_unwind(std::panic::AssertUnwindSafe(|| {
+                    let _ = glob.depth();
+                    let _ = glob.text();
+                    let _ = glob.is_exhaustive();
+                    let _ = glob.has_root();
+                    let _ = glob.is_match("a/b");
+                    let _ = glob.walk(basep.clone()).take(64).count();
+                }));
+            }
             if all_default {
                 run4(glob.walk(basep.clone()), &layers, &logs, &mut items)?;
             }
